@@ -2,12 +2,14 @@
 # Extract MIR facts from a blockwatch source tree.  usage: extract.sh <src-root> <out-prefix> [extra RUSTFLAGS]
 # Leaves <out-prefix>.blockwatch.lib.json and <out-prefix>.blockwatch.bin.json
 set -u
+HERE=$(dirname "$(readlink -f "$0")")
 SRC=${1:-/repo}
-OUT=${2:-/verif/.cache/facts/cur}
+OUT=${2:-$HERE/.cache/facts/cur}
 EXTRA=${3:-}
-T=${BW_TARGET_DIR:-/verif/.cache/target}
-DRV=/verif/driver/target/release/bwfacts
-[ -x "$DRV" ] || (cd /verif/driver && cargo build --release --offline >&2) || exit 2
+T=${BW_TARGET_DIR:-$HERE/.cache/target}
+DRV=$HERE/driver/target/release/bwfacts
+# (re)build the extractor when it is missing or older than its source
+if [ ! -x "$DRV" ] || [ "$HERE/driver/src/main.rs" -nt "$DRV" ]; then (cd "$HERE/driver" && cargo build --release --offline >&2) || exit 2; fi
 mkdir -p "$(dirname "$OUT")" "$T"
 rm -f "$OUT".blockwatch.lib.json "$OUT".blockwatch.bin.json
 rm -rf "$T"/debug/.fingerprint/blockwatch-*
